@@ -4,33 +4,20 @@ From PV Require Import Lib.Bytes Model.Paths Spec.PathDenote Proofs.PathsBase Pr
   Proofs.PathsRelpath Proofs.PathsRefute.
 Open Scope N_scope.
 
-Lemma root_only_false p : components p <> [[]] -> root_only p = false.
-Proof.
-  intro H. destruct (root_only p) eqn:E; [|reflexivity]. apply components_root_only in E. contradiction.
-Qed.
-
-Lemma clean_dot_denotes_partial cwd p :
-  components p <> [[]] -> denote cwd (clean_dot p) = denote cwd p.
-Proof. intro H. apply clean_dot_denotes. apply root_only_false. exact H. Qed.
-
-Lemma clean_path_denotes_partial cwd p :
-  components p <> [[]] -> denote cwd (clean_path p) = denote cwd p.
-Proof. intro H. apply clean_path_denotes. apply root_only_false. exact H. Qed.
-
-Lemma prefix_is_parts_prefix_partial p q :
+Lemma prefix_is_parts_prefix_all p q :
   p <> [] -> q <> [] ->
-  (components q = [] -> q = dotstr) ->            (* a prefix without any name is written "." *)
-  (q = dotstr -> is_abs p = rooted p) ->           (* no Windows drive prefix X:/ on p *)
+  (components q = [] -> is_abs p = rooted p) ->   (* for ".", "./", ...: no Windows drive prefix X:/ on p *)
   has_prefix_path p q = path_prefixb q p.
 Proof. apply prefix_is_parts_prefix. Qed.
 
-Lemma contains_is_parts_infix_partial p sub :
-  p <> [] -> canonical sub -> (rooted sub = false \/ has_double_slash p = false) ->
+Lemma contains_is_parts_infix_all p sub :
+  p <> [] -> sub <> [] ->
+  (components sub = [] -> ~ In colon p) ->         (* for ".", "./", ...: no ':' in p *)
   contains_path p sub = path_infixb sub p.
 Proof. apply contains_is_parts_infix. Qed.
 
-Lemma suffix_is_parts_suffix_partial p suffix :
-  canonical p -> canonical suffix -> suffix <> dotstr ->
+Lemma suffix_is_parts_suffix_all p suffix :
+  p <> [] -> suffix <> [] -> components suffix <> [] ->
   has_suffix_path p suffix = path_suffixb suffix p.
 Proof. apply suffix_is_parts_suffix. Qed.
 
